@@ -14,37 +14,133 @@ theorem level_is_bracket_interpolation (f : Files α) (d : Loaded α) (h : load 
       (a.1 = g ∧ v = a.2) ∨
       ∃ b ∈ (sortRows f.level)[i + 1]?, a.1 < g ∧ g < b.1 ∧
         v = Num.add (Num.mul (Num.div (Num.sub b.2 a.2) (Num.ofInt (b.1 - a.1))) (Num.ofInt (g - a.1))) a.2 := by
-  sorry
+  obtain ⟨_, dt, _, hlev, _⟩ := LoadB.load_invB f d h
+  rw [hlev, LoadB.mem_levelB] at hv
+  exact LoadB.interp_bracketB _ g v hv.2.2
 
 /-- Over an ordered field the formula is the point of the chord: exact linear interpolation. -/
 theorem interp_on_chord (x0 x1 g : Int) (y0 y1 : Rat) (h : x0 < x1) :
     Num.add (Num.mul (Num.div (Num.sub y1 y0) (Num.ofInt (x1 - x0))) (Num.ofInt (g - x0))) y0 =
       y0 + (y1 - y0) * ((g - x0 : Int) : Rat) / ((x1 - x0 : Int) : Rat) := by
-  sorry
+  exact LoadB.chordB x0 x1 g y0 y1 h
 
 /-- No level is produced strictly inside a gap of the source record … -/
 theorem no_level_in_gap (f : Files α) (d : Loaded α) (h : load f false = .ok d)
     (g : Int) (v : α) (hv : (g, v) ∈ d.level) :
     ∀ p ∈ gapsOf ((sortRows f.level).map (·.1)), ¬ (p.1 < g ∧ g < p.2) := by
-  sorry
+  obtain ⟨hdup, dt, _, hlev, _⟩ := LoadB.load_invB f d h
+  rw [hlev, LoadB.mem_levelB] at hv
+  obtain ⟨_, ⟨l, hl⟩, _⟩ := hv
+  rw [LoadB.ivsOf_labelB] at hl
+  exact LoadB.lab_not_in_gap _ _ _ _ g l (LoadB.gaps_okB f.level hdup) hl
 
 /-- … and a level is produced at every other non-closing grid instant. -/
 theorem level_outside_gaps (f : Files α) (d : Loaded α) (h : load f false = .ok d)
     (g : Int) (hg : g ∈ gridCore f.rain f.level)
     (hgap : ∀ p ∈ gapsOf ((sortRows f.level).map (·.1)), ¬ (p.1 < g ∧ g < p.2)) :
     ∃ v, (g, v) ∈ d.level := by
-  sorry
+  obtain ⟨_, dt, hdt, hlev, _⟩ := LoadB.load_invB f d h
+  have hs := LoadB.gridCore_sortedB f.rain f.level
+  have h0 := LoadB.stepOf_nonnegB _ dt hs hdt
+  have h1 := LoadB.headD_leB _ 0 g hs hg
+  have h2 := LoadB.le_getLastDB _ 0 g hs hg
+  obtain ⟨l, hl⟩ := LoadB.lab_some ((gridCore f.rain f.level).getLastD 0 + dt)
+    ((gridCore f.rain f.level).headD 0) _ 0 g h1 (by omega) hgap
+  obtain ⟨hlo, hhi⟩ := LoadB.core_spanB f.rain f.level g hg
+  obtain ⟨v, hv⟩ := LoadB.interp_someB (sortRows f.level) g (LoadB.sortRows_sortedLE _) hlo hhi
+  refine ⟨v, ?_⟩
+  rw [hlev, LoadB.mem_levelB]
+  exact ⟨hg, ⟨l, by rw [LoadB.ivsOf_labelB]; exact hl⟩, hv⟩
 
 /-- A gap is a pair of consecutive source measurements further apart than the smallest step. -/
 theorem gapsOf_spec (zt : List Int) (p : Int × Int) :
     p ∈ gapsOf zt ↔ p ∈ List.zip zt zt.tail ∧ ∃ m, minOf (diffs zt) = some m ∧ p.2 - p.1 ≠ m := by
-  sorry
+  exact LoadB.gapsOf_specB zt p
 
 /-- Two instants carrying a level have the same label exactly when no gap separates them. -/
 theorem labels_across_gap (f : Files α) (d : Loaded α) (h : load f false = .ok d)
     (g g' : Int) (v v' : α) (hv : (g, v) ∈ d.level) (hv' : (g', v') ∈ d.level) (hlt : g < g') :
     ∃ l l', (g, some l) ∈ d.grid ∧ (g', some l') ∈ d.grid ∧
       (l = l' ↔ ¬ ∃ p ∈ gapsOf ((sortRows f.level).map (·.1)), g ≤ p.1 ∧ p.2 ≤ g') := by
-  sorry
+  obtain ⟨hdup, dt, _, hlev, hgrid⟩ := LoadB.load_invB f d h
+  rw [hlev, LoadB.mem_levelB] at hv hv'
+  obtain ⟨hc, ⟨l, hl⟩, _⟩ := hv
+  obtain ⟨hc', ⟨l', hl'⟩, _⟩ := hv'
+  refine ⟨l, l', ?_, ?_, ?_⟩
+  · rw [hgrid, List.mem_map]
+    exact ⟨g, List.mem_append_left _ hc, by rw [hl]⟩
+  · rw [hgrid, List.mem_map]
+    exact ⟨g', List.mem_append_left _ hc', by rw [hl']⟩
+  · rw [LoadB.ivsOf_labelB] at hl hl'
+    exact LoadB.lab_eq_iff _ _ _ _ g g' l l' (LoadB.gaps_okB f.level hdup) hl hl' hlt
+
+/-! ### Non-vacuity: a record with one gap loads, interpolates between two source samples,
+    produces no level inside the gap, and carries two labels. -/
+section NonVacuity
+
+/-- ad-hoc exact integer carrier for kernel-free evaluation by `decide` (the data below are chosen so
+    that every division is exact) -/
+local instance numIntB : Num Int where
+  add := (· + ·)
+  sub := (· - ·)
+  mul := (· * ·)
+  div := (· / ·)
+  neg := fun x => -x
+  ofInt := id
+  lt := fun a b => decide (a < b)
+  le := fun a b => decide (a ≤ b)
+  beq := fun a b => a == b
+  floor := id
+  ceil := id
+
+/-- source levels at 0, 10, 20, 40, 50 (unsorted): smallest step 10, one gap (20, 40);
+    rainfall every 5 s from 0 to 50; ET additionally at the closing instant 55 -/
+private def exI : Files Int where
+  rain := [(10, 1), (0, 0), (5, 2), (15, 0), (20, 0), (25, 3), (30, 0), (35, 0), (40, 1), (45, 0), (50, 0)]
+  et := [(0, 1), (5, 1), (10, 1), (15, 1), (20, 1), (25, 1), (30, 1), (35, 1), (40, 1), (45, 1),
+    (50, 1), (55, 1)]
+  level := [(0, 10), (10, 30), (40, 70), (50, 90), (20, 10)]
+
+private def exIOK : Bool :=
+  match load exI false with
+  | .ok d =>
+    d.step == 5 &&
+    gapsOf ((sortRows exI.level).map (·.1)) == [(20, 40)] &&
+    -- interpolated between the source samples (0, 10) and (10, 30)
+    d.level.contains (5, 20) &&
+    -- source samples are reproduced; (15, 20), (20, 10), (40, 70) instantiate both sides of
+    -- `labels_across_gap`
+    d.level.contains (15, 20) && d.level.contains (20, 10) && d.level.contains (40, 70) &&
+    -- nothing strictly inside the gap
+    !d.level.any (fun r => decide (20 < r.1) && decide (r.1 < 40)) &&
+    d.level.map (·.1) == [0, 5, 10, 15, 20, 40, 45, 50] &&
+    -- two labels, none inside the gap
+    d.grid == [(0, some 1), (5, some 1), (10, some 1), (15, some 1), (20, some 1), (25, none),
+      (30, none), (35, none), (40, some 2), (45, some 2), (50, some 2), (55, some 2)]
+  | .error _ => false
+
+example : exIOK = true := by decide
+
+/-- the same record shape at `Rat`, with a non-integral interpolated value; plain `decide` gets stuck
+    on `Rat` arithmetic, so the Boolean is evaluated by the kernel (`decide +kernel`: ordinary
+    definitional unfolding checked by the kernel itself; the compiler is not trusted) -/
+private def exQ : Files Rat where
+  rain := [(10, 1), (0, 0), (5, 2), (15, 0), (20, 0), (25, 3), (30, 0), (35, 0), (40, 1), (45, 0), (50, 0)]
+  et := [(0, 1), (5, 1), (10, 1), (15, 1), (20, 1), (25, 1), (30, 1), (35, 1), (40, 1), (45, 1),
+    (50, 1), (55, 1)]
+  level := [(0, 10), (10, 13), (40, 7), (50, 9), (20, 11)]
+
+private def exQOK : Bool :=
+  match load exQ false with
+  | .ok d =>
+    gapsOf ((sortRows exQ.level).map (·.1)) == [(20, 40)] &&
+    d.level.any (fun r => r.1 == 5 && r.2 == (23 / 2 : Rat)) &&
+    d.level.map (·.1) == [0, 5, 10, 15, 20, 40, 45, 50] &&
+    d.grid.contains (20, some 1) && d.grid.contains (30, none) && d.grid.contains (40, some 2)
+  | .error _ => false
+
+example : exQOK = true := by decide +kernel
+
+end NonVacuity
 
 end Spowtd
